@@ -7,6 +7,8 @@ import (
 	"crypto/x509/pkix"
 	"fmt"
 	"net"
+	"os"
+	"strings"
 	"time"
 
 	"github.com/ansible/receptor/internal/verifapi"
@@ -32,6 +34,7 @@ type verifTLSModel struct {
 	verifyErr bool
 	names     []string
 	namesErr  bool
+	otherNames []string // receptor names carried by presented certificates other than the leaf
 	// captured
 	verifyCalls int
 	verified    *x509.Certificate
@@ -71,6 +74,10 @@ func verifInstallTLSModel(m *verifTLSModel) {
 	verifapi.Redirect("crypto/sha512.Sum384", func(data []byte) [48]byte { d := verifD384; d[1] = data[0]; return d })
 	verifapi.Redirect("crypto/sha512.Sum512", func(data []byte) [64]byte { d := verifD512; d[1] = data[0]; return d })
 	verifapi.Redirect("github.com/ansible/receptor/pkg/utils.ReceptorNames", func(exts []pkix.Extension) ([]string, error) {
+		// certificates built by verifAnyPresentation carry their index in a marker extension; index 0 is the leaf
+		if len(exts) == 1 && len(exts[0].Value) == 1 && exts[0].Value[0] != 0 {
+			return m.otherNames, nil
+		}
 		if m.namesErr {
 			return nil, fmt.Errorf("asn1: structure error")
 		}
@@ -91,7 +98,7 @@ func verifAnyPresentation(m *verifTLSModel) [][]byte {
 	n := verifapi.Choose(3)
 	var raw [][]byte
 	for i := 0; i < n; i++ {
-		c := &x509.Certificate{Raw: []byte{byte(i), 0xAA}}
+		c := &x509.Certificate{Raw: []byte{byte(i), 0xAA}, Extensions: []pkix.Extension{{Value: []byte{byte(i)}}}}
 		m.certs = append(m.certs, verifCertSpec{parses: verifapi.Bool(), cert: c})
 		raw = append(raw, []byte{byte(i), 0xAA})
 	}
@@ -120,6 +127,10 @@ func Verif_C09_verify_decision() {
 		m.names = []string{"ot"}
 	case 4:
 		m.names = []string{"ot", "ex", "e"}
+	}
+	// a second presented certificate (somebody else's, sent along with the leaf) may name the expected node: irrelevant
+	if verifapi.Bool() {
+		m.otherNames = []string{"ex"}
 	}
 	// pins
 	nPins := verifapi.Choose(3)
@@ -342,3 +353,79 @@ func Verif_C09_verifier_reuse() {
 	}
 	verifapi.Cover("three-handshakes")
 }
+
+// Verif_C09_profile_to_listener: the whole configuration path of a mutually authenticated stream
+// listener: the real PrepareTLSServerConfig turns a tls-server profile (client certificates required
+// or not, client CA bundle, optional pinned fingerprint) into a tls.Config, the real listen() turns
+// that into the listener's configuration. Whenever the profile requires client certificates, a client
+// whose packets claim to come from node N and who presents a chain-valid certificate naming node C is
+// accepted iff C == N and its fingerprint is the pinned one (if any).
+func Verif_C09_profile_to_listener() {
+	m := &verifTLSModel{}
+	verifInstallTLSModel(m)
+	verifapi.Redirect("crypto/tls.X509KeyPair", func(certPEMBlock, keyPEMBlock []byte) (tls.Certificate, error) {
+		return tls.Certificate{}, nil
+	})
+	verifapi.Redirect("(*crypto/x509.CertPool).AppendCertsFromPEM", func(p *x509.CertPool, pem []byte) bool { return true })
+	dir := verifapi.TempDir()
+	verifapi.Assert("files", verifapi.All(os.WriteFile(dir+"/cert", []byte("c"), 0o600) == nil,
+		os.WriteFile(dir+"/key", []byte("k"), 0o600) == nil, os.WriteFile(dir+"/ca", []byte("a"), 0o600) == nil))
+	n := verifNetceptor("A")
+	var captured *tls.Config
+	verifapi.Redirect("(*github.com/quic-go/quic-go.Transport).Listen", func(t *quic.Transport, tlsConf *tls.Config, conf *quic.Config) (*quic.Listener, error) {
+		captured = tlsConf
+		return new(quic.Listener), nil
+	})
+	verifapi.Redirect("(*github.com/quic-go/quic-go.Listener).Accept", func(l *quic.Listener, ctx context.Context) (quic.Connection, error) {
+		<-ctx.Done()
+		return nil, ctx.Err()
+	})
+	verifapi.Redirect("(*github.com/quic-go/quic-go.Listener).Close", func(l *quic.Listener) error { return nil })
+	pinned := verifapi.Bool()
+	// the pinned fingerprint is either the presented certificate's sha256 digest (verifD256 with byte 1 = 0) or another one
+	pinIsTheCert := verifapi.Bool()
+	cfg := TLSServerConfig{Name: "srv", Cert: dir + "/cert", Key: dir + "/key", ClientCAs: dir + "/ca", RequireClientCert: true,
+		SkipReceptorNamesCheck: true, MinTLS13: verifapi.Bool()}
+	if pinned {
+		fp := "02" + strings.Repeat("00", 31)
+		if !pinIsTheCert {
+			fp = "07" + strings.Repeat("00", 31)
+		}
+		cfg.PinnedClientCert = []string{fp}
+	}
+	profile, err := cfg.PrepareTLSServerConfig(n.s)
+	verifapi.Assert("profile-prepared", err == nil && profile != nil)
+	ctx, cancel := context.WithCancel(context.Background())
+	li, err := n.s.listen(ctx, "svc", profile, false, nil)
+	verifapi.Assert("listener-created", err == nil && li != nil && captured != nil)
+	claimed := []string{"N", "NN", "N:x"}[verifapi.Choose(3)]
+	certName := []string{"N", "NN", "N:x", "C", ""}[verifapi.Choose(5)]
+	m.certs = []verifCertSpec{{parses: true, cert: &x509.Certificate{Raw: []byte{0, 0xAA}}}}
+	m.names = []string{certName}
+	// what crypto/tls does for a client hello: ask for the per-client configuration if there is a hook, then run its verifier
+	eff := captured
+	if captured.GetConfigForClient != nil {
+		hi := &tls.ClientHelloInfo{Conn: verifHelloConn{addr: Addr{network: "netceptor-A", node: claimed, service: "svc9"}}}
+		cc, cerr := captured.GetConfigForClient(hi)
+		verifapi.Assert("per-client-configuration-built", cerr == nil)
+		if cc != nil {
+			eff = cc
+		}
+	}
+	verifapi.Assert("client-certificate-demanded", verifapi.Any(eff.ClientAuth == tls.RequireAndVerifyClientCert, eff.ClientAuth == tls.RequireAnyClientCert))
+	var verr error
+	if eff.VerifyPeerCertificate != nil {
+		verr = eff.VerifyPeerCertificate([][]byte{{0, 0xAA}}, nil)
+	}
+	verifapi.Cover("client-verified")
+	verifapi.Assert("mutual-tls-listener-accepts-iff-certificate-names-the-claimed-node-and-pin-matches",
+		(verr == nil) == verifapi.All(certName == claimed, verifapi.Any(!pinned, pinIsTheCert)))
+	cancel()
+	_ = li.Close()
+	verifapi.Quiesce()
+}
+
+// Verif_C20_only_the_leaf_names_the_peer (property C20: a certificate is accepted for the node IDs it
+// was issued for and for no other ID): the verifier's decision table of Verif_C09_verify_decision, in
+// which a second presented certificate naming the expected node never makes a leaf acceptable.
+func Verif_C20_only_the_leaf_names_the_peer() { Verif_C09_verify_decision() }
